@@ -35,6 +35,8 @@ type Program struct {
 	Src   []string `json:"src"` // root type of predecessor slot 0 (and 1)
 	Dst   string   `json:"dst"`
 	Items []Item   `json:"items"`
+
+	infos []itemInfo // cache of info(i)
 }
 
 func (p *Program) String() string {
@@ -141,13 +143,26 @@ type itemInfo struct {
 }
 
 func walkType(root reflect.Type, path []string, side int) (pathInfo, bool) {
+	k := wtKey{root, pathStr(path), side}
+	if pi, ok := wtCache[k]; ok {
+		return pi, true
+	}
 	for _, pi := range enumPathsCached(root, len(path), side) {
-		if len(pi.Path) == len(path) && pathStr(pi.Path) == pathStr(path) {
+		if len(pi.Path) == len(path) && pathStr(pi.Path) == k.p {
+			wtCache[k] = pi
 			return pi, true
 		}
 	}
 	return pathInfo{}, false
 }
+
+type wtKey struct {
+	t reflect.Type
+	p string
+	s int
+}
+
+var wtCache = map[wtKey]pathInfo{}
 
 type epKey struct {
 	t    reflect.Type
@@ -167,6 +182,16 @@ func enumPathsCached(root reflect.Type, maxLen, side int) []pathInfo {
 }
 
 func (p *Program) info(i int) itemInfo {
+	if p.infos == nil {
+		p.infos = make([]itemInfo, len(p.Items))
+		for j := range p.Items {
+			p.infos[j] = p.computeInfo(j)
+		}
+	}
+	return p.infos[i]
+}
+
+func (p *Program) computeInfo(i int) itemInfo {
 	it := p.Items[i]
 	var inf itemInfo
 	tp, ok := walkType(rootTypes[p.Dst], it.To, sideTarget)
@@ -227,6 +252,7 @@ type bounds struct {
 	Set3Cfg     [][]string
 	Donors2     int // donors per target in sets of size 2
 	Donors3     int
+	DonorsEntry int // donors per target in the struct-valued-map family
 	SingleShape []string
 }
 
@@ -240,6 +266,7 @@ func boundsFor(quick bool) bounds {
 			Set3Cfg:     [][]string{{"S", "T"}, {"SL", "T", "MSA"}, {"LL", "T", "T"}},
 			Donors2:     2,
 			Donors3:     1,
+			DonorsEntry: 1,
 			SingleShape: []string{"S", "L"},
 		}
 	}
@@ -250,6 +277,7 @@ func boundsFor(quick bool) bounds {
 		Set3Cfg:     [][]string{{"S", "T"}, {"S", "MSA"}, {"SL", "T", "MSA"}, {"LL", "T", "T"}},
 		Donors2:     2,
 		Donors3:     1,
+		DonorsEntry: 2,
 		SingleShape: []string{"S", "L"},
 	}
 }
@@ -296,10 +324,13 @@ func enumerate(quick bool, yield func(p *Program) bool) {
 	b := boundsFor(quick)
 	// size 1: every compatible (from, to) pair of every type pair
 	for _, shape := range b.SingleShape {
-		for _, src := range rootNames {
-			for _, dst := range rootNames {
-				for _, to := range enumPathsCached(rootTypes[dst], b.MaxLen, sideTarget) {
-					for _, from := range enumPathsCached(rootTypes[src], b.MaxLen, sideSource) {
+		for _, src := range allRoots {
+			for _, dst := range allRoots {
+				if (src == "SM" || dst == "SM") && shape != "S" {
+					continue // the struct-valued-map family: predecessor START only
+				}
+				for _, to := range enumPathsCached(rootTypes[dst], lenFor(dst, b.MaxLen), sideTarget) {
+					for _, from := range enumPathsCached(rootTypes[src], lenFor(src, b.MaxLen), sideSource) {
 						if !compat(from, to.Leaf) {
 							continue
 						}
@@ -314,13 +345,13 @@ func enumerate(quick bool, yield func(p *Program) bool) {
 	}
 	// quick: additionally every path of length MaxLen+1, once as a target (first donor) and once as a source (first sink)
 	if b.ExtraLen > b.MaxLen {
-		for _, src := range rootNames {
-			for _, dst := range rootNames {
+		for _, src := range allRoots {
+			for _, dst := range allRoots {
 				for _, to := range enumPathsCached(rootTypes[dst], b.ExtraLen, sideTarget) {
-					if len(to.Path) <= b.MaxLen {
+					if len(to.Path) <= lenFor(dst, b.MaxLen) {
 						continue
 					}
-					if ds := donors(src, to.Leaf, b.MaxLen); len(ds) > 0 {
+					if ds := donors(src, to.Leaf, lenFor(src, b.MaxLen)); len(ds) > 0 {
 						p := &Program{Shape: "S", Src: []string{src}, Dst: dst, Items: []Item{{Src: 0, From: ds[0].Path, To: to.Path}}}
 						if !yield(p) {
 							return
@@ -328,10 +359,10 @@ func enumerate(quick bool, yield func(p *Program) bool) {
 					}
 				}
 				for _, from := range enumPathsCached(rootTypes[src], b.ExtraLen, sideSource) {
-					if len(from.Path) <= b.MaxLen {
+					if len(from.Path) <= lenFor(src, b.MaxLen) {
 						continue
 					}
-					for _, to := range enumPathsCached(rootTypes[dst], b.MaxLen, sideTarget) {
+					for _, to := range enumPathsCached(rootTypes[dst], lenFor(dst, b.MaxLen), sideTarget) {
 						if len(to.Path) > 0 && compat(from, to.Leaf) {
 							p := &Program{Shape: "S", Src: []string{src}, Dst: dst, Items: []Item{{Src: 0, From: from.Path, To: to.Path}}}
 							if !yield(p) {
@@ -355,17 +386,52 @@ func enumerate(quick bool, yield func(p *Program) bool) {
 			targets := enumPathsCached(rootTypes[dst], b.MaxLen, sideTarget)
 			for _, cfg := range cfgs {
 				shape, srcs := cfg[0], cfg[1:]
-				if !enumSets(shape, srcs, dst, targets, size, nd, b.MaxLen, yield) {
+				if !enumSets(shape, srcs, dst, targets, size, nd, b.MaxLen, nil, yield) {
 					return
 				}
 			}
 		}
+		if !enumEntrySets(b, size, yield) {
+			return
+		}
 	}
+}
+
+// enumEntrySets: the struct-valued-map family. Successor SM with every target path up to length 4 (so two
+// mappings below one map entry, and a field of a struct inside an entry, are there), and SM as predecessor.
+func enumEntrySets(b bounds, size int, yield func(p *Program) bool) bool {
+	targets := enumPathsCached(rootTypes["SM"], smLen, sideTarget)
+	if size == 2 {
+		for _, cfg := range [][]string{{"S", "T"}, {"S", "SM"}, {"SL", "T", "MSA"}, {"LL", "T", "T"}} {
+			if !enumSets(cfg[0], cfg[1:], "SM", targets, 2, b.DonorsEntry, b.MaxLen, nil, yield) {
+				return false
+			}
+		}
+		// reading from struct-valued map entries
+		for _, dst := range []string{"T", "MSA"} {
+			for _, cfg := range [][]string{{"S", "SM"}, {"SL", "SM", "T"}} {
+				if !enumSets(cfg[0], cfg[1:], dst, enumPathsCached(rootTypes[dst], b.MaxLen, sideTarget), 2, b.Donors2, b.MaxLen, nil, yield) {
+					return false
+				}
+			}
+		}
+		return true
+	}
+	// three mappings below one map entry
+	sameEntry := func(ts []pathInfo) bool {
+		for _, t := range ts {
+			if len(t.Path) < 3 || t.Path[0] != ts[0].Path[0] || t.Path[1] != ts[0].Path[1] {
+				return false
+			}
+		}
+		return true
+	}
+	return enumSets("S", []string{"T"}, "SM", targets, 3, 1, b.MaxLen, sameEntry, yield)
 }
 
 // enumSets: every multiset of `size` targets, every assignment of the items to the predecessor slots or
 // to a static value (at least one dynamic item), up to nd donors per dynamic item.
-func enumSets(shape string, srcs []string, dst string, targets []pathInfo, size, nd, maxLen int, yield func(p *Program) bool) bool {
+func enumSets(shape string, srcs []string, dst string, targets []pathInfo, size, nd, maxLen int, keep func([]pathInfo) bool, yield func(p *Program) bool) bool {
 	nslots := len(srcs)
 	symmetric := shape == "LL" && srcs[0] == srcs[1]
 	idx := make([]int, size)
@@ -379,6 +445,15 @@ func enumSets(shape string, srcs []string, dst string, targets []pathInfo, size,
 				}
 			}
 			return true
+		}
+		if keep != nil {
+			ts := make([]pathInfo, size)
+			for i, t := range idx {
+				ts[i] = targets[t]
+			}
+			if !keep(ts) {
+				return true
+			}
 		}
 		// slot assignment
 		slots := make([]int, size)
@@ -455,7 +530,7 @@ func enumSets(shape string, srcs []string, dst string, targets []pathInfo, size,
 					items[pos] = Item{Src: slotStatic, To: t.Path}
 					return recD(pos + 1)
 				}
-				ds := donors(srcs[slots[pos]], t.Leaf, maxLen)
+				ds := donors(srcs[slots[pos]], t.Leaf, lenFor(srcs[slots[pos]], maxLen))
 				n := 0
 				for _, d := range ds {
 					if n >= nd {
